@@ -41,7 +41,7 @@ func (m mapConf) GetInt(k string) int {
 	v, _ := strconv.Atoi(m[k])
 	return v
 }
-func (m mapConf) GetStringSlice(k string) []string     { return nil }
+func (m mapConf) GetStringSlice(k string) []string   { return nil }
 func (m mapConf) SetDefault(k string, v interface{}) {}
 
 var storeKinds = []string{"leveldb", "leveldb2", "leveldb3"}
@@ -220,8 +220,12 @@ func (s *faultStore) ListDirectoryPrefixedEntries(ctx context.Context, dirPath u
 func (s *faultStore) BeginTransaction(ctx context.Context) (context.Context, error) {
 	return s.inner.BeginTransaction(ctx)
 }
-func (s *faultStore) CommitTransaction(ctx context.Context) error   { return s.inner.CommitTransaction(ctx) }
-func (s *faultStore) RollbackTransaction(ctx context.Context) error { return s.inner.RollbackTransaction(ctx) }
+func (s *faultStore) CommitTransaction(ctx context.Context) error {
+	return s.inner.CommitTransaction(ctx)
+}
+func (s *faultStore) RollbackTransaction(ctx context.Context) error {
+	return s.inner.RollbackTransaction(ctx)
+}
 func (s *faultStore) KvPut(ctx context.Context, key []byte, value []byte) error {
 	s.mu.Lock()
 	s.kvKeys[string(key)] = true
